@@ -13,7 +13,7 @@ import (
 // NewExec returns a fresh interpreter of the C19 line protocol on the real code.
 func NewExec() func(words []string) string {
 	e := newExecState()
-	return func(ws []string) string { return hk.Guard(func() string { return e.Step(ws) }) }
+	return func(ws []string) string { return e.StepWD(ws) }
 }
 
 // ---- one case: ops on the implementation + the property's own oracle after every op ----------------
@@ -25,7 +25,16 @@ type kase struct {
 	acks     int
 	work     int // copy / drain / restart ops
 	live     bool
+	dead     bool // a watchdog fired (or too many did in this run): no further ops in this case
 }
+
+// Stall budget: each watchdog hit costs its watchdog time, and the finding is recorded with its replay
+// at the first one. After maxRunStalls hits of the runSync/op watchdogs the cases stop at their next
+// drain; after maxLiveStalls hits of the settle watchdog the live cases stop at their next settle.
+const (
+	maxRunStalls  = 4
+	maxLiveStalls = 3
+)
 
 func begin(r *hk.Run, label string) *kase {
 	r.Case(label)
@@ -44,10 +53,28 @@ func has(l []int, x int) bool {
 //	(row removal)    a row that disappeared belongs to a blob the destination holds
 //	(bit identical)  the destination holds exactly the uploaded bytes, and only source blobs
 func (k *kase) op(line string) string {
+	if k.dead {
+		return "skipped"
+	}
 	ws := strings.Fields(line)
-	out := hk.Guard(func() string { return k.e.Step(ws) })
+	if len(ws) > 0 {
+		all, live := Stalls()
+		if (k.live && ws[0] == "settle" && live >= maxLiveStalls) ||
+			(!k.live && (ws[0] == "drain" || ws[0] == "drainfirst") && all-live >= maxRunStalls) {
+			k.dead = true
+			k.r.Hit("skipped-after-repeated-stalls")
+			return "skipped"
+		}
+	}
+	out := k.e.StepWD(ws)
 	k.r.Op(line, out)
-	if strings.HasPrefix(out, "broken") || out == "panic" || out == "hang" || strings.HasPrefix(out, "timeout") {
+	if strings.HasPrefix(out, "broken") || out == "panic" || out == "hang" || strings.HasPrefix(out, "timeout") || strings.HasPrefix(out, "stalled") {
+		k.dead = true
+		if strings.HasPrefix(out, "stalled") {
+			// the watchdog of `drain` / `drainfirst`: the real runSync never returned
+			k.r.Fail("runsync-stalled-with-pending-blobs", "op "+line+" -> "+out+": runSync did not return; the copy loop is stuck with blobs pending", "runSync returns (copied=N)", out, k.r.CaseOps())
+			return out
+		}
 		if strings.HasPrefix(out, "timeout") {
 			// the watchdog of `settle`: the real syncLoop left a pending blob uncopied for more than two poll intervals
 			k.r.Fail("syncloop-stalled-with-pending-blob", "op "+line+" -> "+out, "needCopy drained (eventual delivery)", out, k.r.CaseOps())
@@ -139,6 +166,10 @@ func (k *kase) judge() {
 // finish runs the failure-free continuation (restart + drain, or settle in live mode) and evaluates
 // the liveness part of the statement.
 func (k *kase) finish() {
+	if k.dead {
+		k.e.Close()
+		return
+	}
 	before := k.e.Observe()
 	if k.live {
 		k.op("restart")
@@ -149,6 +180,10 @@ func (k *kase) finish() {
 		}
 		k.op("drain ok -")
 		k.op("dump")
+	}
+	if k.dead {
+		k.e.Close()
+		return
 	}
 	v := k.e.Observe()
 	ops := k.r.CaseOps()
@@ -404,6 +439,115 @@ func genLonePending(r *hk.Run) {
 	}
 }
 
+func idList(ids []int) string {
+	s := make([]string, len(ids))
+	for i, x := range ids {
+		s[i] = fmt.Sprint(x)
+	}
+	return strings.Join(s, ",")
+}
+
+// Backlog + outage through the real runSync (worker pool of 5, results counted): n = 6..40 pending
+// blobs in ONE batch; the destination or the source fails for the whole batch, for k >= 5 of the n
+// blobs, or for the first k attempts whichever blobs they are; then it recovers. Oracle: runSync
+// returns (watchdog), rows intact until acknowledged (safety oracle after every op), everything
+// delivered afterwards.
+func genBacklog(r *hk.Run, sizes []int, faults []string) {
+	for _, n := range sizes {
+		ids := []int{0, 1}
+		for i := 10; len(ids) < n; i++ {
+			ids = append(ids, i)
+		}
+		ups := func(k *kase) {
+			for _, i := range ids {
+				k.op(fmt.Sprintf("up %d ok", i))
+			}
+		}
+		for _, f := range faults {
+			// the whole batch fails, then recovery
+			k := begin(r, fmt.Sprintf("backlog n=%d whole-batch %s", n, f))
+			ups(k)
+			k.op("drain " + f + " " + idList(ids))
+			k.op("dump")
+			k.op("drain ok -")
+			k.op("dump")
+			r.Hit("mech:backlog-outage-whole-batch")
+			k.finish()
+			// k of n fail (k = 5, n-1), the others are copied in the same batch
+			for _, kk := range []int{5, n - 1} {
+				k := begin(r, fmt.Sprintf("backlog n=%d %d-fail %s", n, kk, f))
+				ups(k)
+				k.op("drain " + f + " " + idList(ids[len(ids)-kk:]))
+				k.op("dump")
+				if kk == 5 {
+					k.op("restart")
+				}
+				k.op("drain ok -")
+				k.op("dump")
+				r.Hit("mech:backlog-outage-k-of-n")
+				k.finish()
+			}
+			// the first k attempts fail, whichever blobs the pool picks
+			if isOutageFault(f) {
+				for _, kk := range []int{5, 6, n - 1, n, n + 3} {
+					k := begin(r, fmt.Sprintf("backlog n=%d first-%d-attempts %s", n, kk, f))
+					ups(k)
+					k.op(fmt.Sprintf("drainfirst %s %d", f, kk))
+					k.op("dump")
+					k.op("drain ok -")
+					k.op("dump")
+					r.Hit("mech:backlog-outage-first-k-attempts")
+					k.finish()
+				}
+			}
+		}
+	}
+}
+
+// the same through the real syncLoop (blobserver.CreateHandler): the store is down for a time window
+// while a backlog builds up, then it is back; delivery by the wake-up of a later upload, or by the
+// 5 s poll alone (poll = true); restarts in between.
+func genBacklogLive(r *hk.Run, sizes []int, polls int) {
+	outages := []string{"desterr", "fetcherr:enoent", "desterr:canceled", "fetcherr"}
+	for c, n := range sizes {
+		o := outages[c%len(outages)]
+		for variant := 0; variant < 3; variant++ {
+			k := begin(r, fmt.Sprintf("backlog-live n=%d %s variant %d", n, o, variant))
+			k.op("live")
+			k.live = true
+			k.op("outage " + o)
+			for i := 0; i < n; i++ {
+				k.op(fmt.Sprintf("up %d ok", 10+i))
+				if variant == 1 && i == n/2 {
+					k.op("restart")
+				}
+			}
+			if variant == 2 {
+				k.op("restart")
+			}
+			k.op("recover")
+			k.op("up 3 ok") // wakes the loop
+			k.op("settle")
+			r.Hit("mech:backlog-outage-live")
+			k.finish()
+		}
+	}
+	for c := 0; c < polls; c++ {
+		n := 6 + 5*c
+		k := begin(r, fmt.Sprintf("backlog-live-poll n=%d", n))
+		k.op("live")
+		k.live = true
+		k.op("outage " + outages[c%len(outages)])
+		for i := 0; i < n; i++ {
+			k.op(fmt.Sprintf("up %d ok", 10+i))
+		}
+		k.op("recover")
+		k.op("settle") // nothing wakes the loop: the 5 s poll has to pick the backlog up
+		r.Hit("mech:backlog-outage-live-poll-only")
+		k.finish()
+	}
+}
+
 // boundary sizes: 32768 (io.Copy's buffer), 32769, 65536, 511, MaxBlobSize-1, MaxBlobSize
 func genBoundarySizes(r *hk.Run, big bool) {
 	ids := []int{4, 5, 6, 7}
@@ -635,7 +779,7 @@ func genMalformed(r *hk.Run) {
 	k := begin(r, "malformed")
 	for _, o := range []string{"", "up", "up 1", "up x ok", "up 01 ok", "up 1 maybe", "up 12345 ok", "copy 1 ok", "copy 1 nofault ok",
 		"copy 1 ok nodq", "cpbegin 1 ok ok mid", "drain ok", "drain nofault -", "drain ok 1,,2", "drain ok ,", "restart now", "dump all",
-		"upend", "cpend x", "copy 1 fetcherr: ok", "copy 1 fetcherr:nokind ok", "copy 1 fetcherr:eof:eof ok", "copy 1 ok:eof ok", "copy 1 fetchsize:eof ok",
+		"upend", "cpend x", "drainfirst desterr", "drainfirst corrupt 3", "drainfirst desterr x", "drainfirst destsize 2", "outage desterr", "recover", "copy 1 fetcherr: ok", "copy 1 fetcherr:nokind ok", "copy 1 fetcherr:eof:eof ok", "copy 1 ok:eof ok", "copy 1 fetchsize:eof ok",
 		"copy 1 shortread:eof0 ok:eof", "up 1 ok:eof", "up 1 qseterr:", "up 1 srcerr:eof0", "copy 1 ok qdelerr:x", "frobnicate", "live", "settle", "upbegin 1 ok", "upbegin 1 ok pre extra", "up 1 ok", "copy 1 ok ok", "dump"} {
 		k.op(o)
 	}
@@ -643,7 +787,7 @@ func genMalformed(r *hk.Run) {
 	k = begin(r, "malformed-live")
 	k.op("live")
 	k.live = true
-	for _, o := range []string{"up 1 qseterr", "copy 1 ok ok", "dump", "live", "drain ok -", "up 1 ok", "settle"} {
+	for _, o := range []string{"up 1 qseterr", "copy 1 ok ok", "dump", "live", "drain ok -", "outage corrupt", "outage", "recover now", "drainfirst desterr 3", "outage desterr:eof", "recover", "up 1 ok", "settle"} {
 		k.op(o)
 	}
 	k.finish()
@@ -651,9 +795,16 @@ func genMalformed(r *hk.Run) {
 
 // Run is the generator + oracle of C19.
 func Run(r *hk.Run) {
-	r.Res.Rule = "cases: (a) witnesses of F-C19-1/2; (b) copy-fault matrix {all 32 fault words: ok, fetchsize, corrupt, destsize, shortread:eof0 and fetcherr/shortread/desterr x 9 error kinds (generic, os.ErrNotExist, PathError{ENOENT}, context.Canceled, DeadlineExceeded, io.EOF, io.ErrUnexpectedEOF, blobserver.ErrCorruptBlob, sorted.ErrNotFound)} x {queue.Delete ok/err} x {atomic, parked before/after queue.Delete} x {nothing, duplicate upload, failing upload, restart, other upload in between}; (c) upload matrix {nothing, acked, failed earlier upload} x {ok, queue.Set error, source error} x {parked before/after queue.Set} x 8 interleaved ops; (d) every op sequence of depth D (4 quick, 5 thorough) over a 16-op alphabet; (e) random walks over 4 blobs (ids 0..3: empty, 1 byte, two ordinary) and over 8 blobs (adding 32768/32769/65536/511 bytes) with all ops; (f) random scripts cut (crash + restart) after every prefix; (i) a zero-length / one-byte blob as the only pending item (first upload, alone after everything was delivered, only row at restart, after a failed attempt) in step and live mode, boundary sizes 511/32768/32769/65536/MaxBlobSize-1/MaxBlobSize, and all matrices for the empty, the 1-byte and an ordinary blob; (g) the real syncLoop via blobserver.CreateHandler(\"sync\") with restarts; (h) malformed ops. Every case ends with restart + failure-free drain and the liveness oracle; the safety oracle runs after every op. distinct = distinct op sequences; non-trivial = at least one acknowledged upload and one copy/drain/restart"
+	r.Res.Rule = "cases: (a) witnesses of F-C19-1/2; (b) copy-fault matrix {all 32 fault words: ok, fetchsize, corrupt, destsize, shortread:eof0 and fetcherr/shortread/desterr x 9 error kinds (generic, os.ErrNotExist, PathError{ENOENT}, context.Canceled, DeadlineExceeded, io.EOF, io.ErrUnexpectedEOF, blobserver.ErrCorruptBlob, sorted.ErrNotFound)} x {queue.Delete ok/err} x {atomic, parked before/after queue.Delete} x {nothing, duplicate upload, failing upload, restart, other upload in between}; (c) upload matrix {nothing, acked, failed earlier upload} x {ok, queue.Set error, source error} x {parked before/after queue.Set} x 8 interleaved ops; (d) every op sequence of depth D (4 quick, 5 thorough) over a 16-op alphabet; (e) random walks over 4 blobs (ids 0..3: empty, 1 byte, two ordinary) and over 8 blobs (adding 32768/32769/65536/511 bytes) with all ops; (f) random scripts cut (crash + restart) after every prefix; (i) a zero-length / one-byte blob as the only pending item (first upload, alone after everything was delivered, only row at restart, after a failed attempt) in step and live mode, boundary sizes 511/32768/32769/65536/MaxBlobSize-1/MaxBlobSize, and all matrices for the empty, the 1-byte and an ordinary blob; (j) backlog + outage through the real runSync worker pool and the real syncLoop: 6..40 pending blobs in one batch, the source/destination failing for the whole batch, for k >= 5 of n blobs, for the first k attempts, or for a time window, then recovering (every wait under a watchdog: a runSync / syncLoop that never comes back is a finding with its ops); (g) the real syncLoop via blobserver.CreateHandler(\"sync\") with restarts; (h) malformed ops. Every case ends with restart + failure-free drain and the liveness oracle; the safety oracle runs after every op. distinct = distinct op sequences; non-trivial = at least one acknowledged upload and one copy/drain/restart"
 	genWitnesses(r)
 	genLonePending(r)
+	if r.Thorough() {
+		genBacklog(r, []int{6, 7, 8, 11, 20, 40}, []string{"desterr", "desterr:canceled", "fetcherr", "fetcherr:enoent", "fetcherr:notexist", "shortread:ueof", "corrupt", "fetchsize", "destsize"})
+		genBacklogLive(r, []int{6, 7, 10, 16, 25, 40}, 3)
+	} else {
+		genBacklog(r, []int{6, 9, 40}, []string{"desterr", "fetcherr:enoent", "corrupt", "destsize"})
+		genBacklogLive(r, []int{6, 12, 40}, 1)
+	}
 	genBoundarySizes(r, true)
 	genFaultMatrix(r)
 	genUploadMatrix(r)
